@@ -716,6 +716,7 @@ func canonAny(m proto.Message) proto.Message {
 			if a.UnmarshalTo(cr.Interface()) == nil {
 				if b, err := detMarshal.Marshal(cr.Interface()); err == nil {
 					a.Value = b
+					a.TypeUrl = "type.googleapis.com/" + string(cr.Descriptor().FullName())
 				}
 			}
 			return
